@@ -14,7 +14,8 @@
 (*    c of the same version, in the order of IOEnv.KINDS): the triples.    *)
 (***************************************************************************)
 EXTENDS ProblemKindLattice, ProblemKindLatticeTables, SequencesExt
-CONSTANT Triples
+CONSTANTS Triples,     \* ask for the third-kind rows
+          WithBounds   \* include the compound bound queries 5..8
 Key(k)  == k.dv * NMask + MaskOf(k.f)
 KindSeq == SortSeq(SetToSeq(Kinds), LAMBDA x, y : Key(x) < Key(y))
 NK      == Len(KindSeq)
@@ -26,7 +27,7 @@ Bounds == << <<5, 0>>, <<6, 0>>, <<7, 0>>, <<8, 0>> >>
 ScriptRows == [n \in 1..(Latest + 1) |->
                  LET v == n - 1 IN
                  [sc |-> v, ops |-> IF v = 0 THEN Basic
-                                    ELSE Basic \o Bounds \o [t \in 1..(Latest - v) |-> <<9, v + t>>]]]
+                                    ELSE Basic \o (IF WithBounds THEN Bounds ELSE <<>>) \o [t \in 1..(Latest - v) |-> <<9, v + t>>]]]
 VerSeq == [i \in 1..NK |-> Ver(KindSeq[i])]
 ScriptOf(i, j) == IF VerSeq[i] = VerSeq[j] THEN VerSeq[i] ELSE 0
 PairRows == [n \in 1..(NK * NK) |->
